@@ -266,6 +266,171 @@ static void spreadCase(vh::Out &out, const std::string &id, vh::Rng &g, bool exa
   out.count("spread_view_bins_" + std::string(bx * by == 1 ? "1" : (bx * by <= 4 ? "2-4" : "5+")));
 }
 
+
+// ------------------------------------------------------------------ part (a''): binary32-exact spreading
+//
+// spreadCoordX/Y on adversarial demand/limit mixes, every returned float compared EXACTLY with the Lean
+// model ColoVerif/Model/SpreadF.lean (op `spreadf`, answer `coordsf` = canonical dyadic of every float).
+// Families: witness (fixed inputs, case f0..f3), small (small demands), mixed (a few huge demands up to
+// INT_MAX among tiny ones; int -> float conversion inexact above 2^24), drift (one cell holding almost the
+// whole demand of a bin whose total is just below a power of two, followed in target order by demand-1 and
+// demand-2 cells: the running share `dem` is rounded up at every addition and ends well above 1).
+// Limits up to 2^22 in magnitude.  No oracle failure is raised here: the bin-level excursions are what the
+// model reproduces and the theorems of Properties/C06.lean bound (`spreadF_enclosure`); they are counted:
+//   spreadf_coord_{strictly_inside,on_edge,outside}_bin, spreadf_round_outside_bin_by_more_than_half
+//   (round(v) beyond [lo - 1/2, hi + 1/2], i.e. the excursion survives the export rounding of a cell of even
+//   width) and spreadf_round_outside_area_by_more_than_half (the same against the placement area: what would
+//   be an exposed centre outside the rows' bounding box — proposed known finding KF-C06-3, see
+//   tools/props/C06.py; also counted as `known_finding_candidate:KF-C06-3`).
+static void spreadFCase(vh::Out &out, const std::string &id, long long idx, vh::Rng &g) {
+  int x0 = 0, y0 = 0, W = 1, H = 1, binSize = 1, n = 1;
+  std::vector<int> demand;
+  std::vector<float> target;
+  std::string family;
+  bool oneBin = false;
+  auto indexTargets = [&]() { target.resize(n); for (int i = 0; i < n; ++i) target[i] = (float)i; };
+  if (idx < 4) {
+    family = "witness";
+    oneBin = true;
+    if (idx == 0) { demand = {4514511, 2, 1, 9, 20, 3, 95, 5, 1, 1, 2, 1}; x0 = 62417; W = 133125 - 62417; }
+    else if (idx == 1) { demand = {2, 1, 19, 2, 7, 2, 2, 5, 8886360, 1, 2, 5}; x0 = 92054; W = 93690 - 92054; }
+    else if (idx == 2) { demand = {16776988, 1, 1, 1, 1, 1, 1, 2, 2, 2}; x0 = 0; W = 4000000; }
+    else { demand = {16776400}; for (int i = 0; i < 200; ++i) demand.push_back(1); for (int i = 0; i < 100; ++i) demand.push_back(2); x0 = 0; W = 1048576; }
+    n = (int)demand.size();
+    y0 = x0; H = W;  // same interval on both axes
+    binSize = W + 1;
+    indexTargets();
+  } else {
+    int fam = g.range(0, 9);
+    family = fam < 3 ? "small" : (fam < 7 ? "mixed" : "drift");
+    // limits up to 2^22 in magnitude
+    auto span = [&](int &a, int &w) {
+      int kind = g.range(0, 3);
+      if (kind == 0) { a = g.range(-60, 60); w = g.range(1, 400); }
+      else if (kind == 1) { a = g.range(-(1 << 22), (1 << 22) - 2); w = g.range(1, std::min<long long>((1 << 22) - a, 1 << 16)); }
+      else if (kind == 2) { a = g.range(-(1 << 22), (1 << 22) - 2); w = g.range(1, (1 << 22) - a); }
+      else { a = g.chance(1, 2) ? 0 : -(1 << 22); w = 1 << g.range(1, 22); }
+    };
+    span(x0, W);
+    span(y0, H);
+    int mx = std::max(W, H);
+    binSize = g.chance(1, 2) ? mx + 1 : (int)g.range(mx / 6 + 1, mx);
+    if (family == "drift") {
+      oneBin = g.chance(3, 4);
+      int m2 = g.range(0, 12), m1 = g.range(0, 2 * m2 + 4);
+      int k = g.range(20, 24);
+      long long S = (1ll << k) - g.range(1, 64);
+      long long D = S - m1 - 2 * m2;
+      int order = g.range(0, 2);  // big first / big last / big in the middle
+      if (order == 1) demand.push_back((int)D);
+      for (int i = 0; i < m1; ++i) demand.push_back(1);
+      if (order == 2) demand.push_back((int)D);
+      for (int i = 0; i < m2; ++i) demand.push_back(2);
+      if (order == 0) demand.insert(demand.begin(), (int)D);
+      n = (int)demand.size();
+      indexTargets();
+    } else {
+      n = g.range(1, g.chance(1, 8) ? 120 : 30);
+      demand.resize(n);
+      for (int i = 0; i < n; ++i) {
+        if (g.chance(1, 8)) demand[i] = 0;
+        else if (family == "small") demand[i] = (int)g.range(1, 60);
+        else {
+          int kind = g.range(0, 9);
+          if (kind < 6) demand[i] = (int)g.range(1, 20);
+          else if (kind < 8) demand[i] = (int)g.range(1, 1ll << g.range(1, 24));
+          else demand[i] = (int)g.range(1ll << 22, INT_MAX);
+        }
+      }
+      target.resize(n);
+      int tm = g.range(0, 3);
+      for (int i = 0; i < n; ++i) {
+        if (tm == 0) target[i] = (float)g.range(-4, 4);
+        else if (tm == 1) target[i] = (float)i;
+        else if (tm == 2) target[i] = (float)(x0 + (double)W * (g.range(0, 1 << 20) / (double)(1 << 20)));
+        else target[i] = (float)((double)(long long)g.range(-(1ll << 44), 1ll << 44) / (double)(1 << 20));
+      }
+    }
+  }
+  out.count("spreadf_family_" + family);
+  DensityGrid grid(binSize, Rectangle(x0, x0 + W, y0, y0 + H));
+  HierarchicalDensityPlacement hp(grid, demand);
+  if (!oneBin) {
+    int mode = g.range(0, 2);
+    if (mode == 1) hp.refineFully();
+    else if (mode == 2) {
+      int rx = g.range(0, hp.levelX()), ry = g.range(0, hp.levelY());
+      for (int i = 0; i < rx; ++i) hp.refineX();
+      for (int i = 0; i < ry; ++i) hp.refineY();
+    }
+  }
+  int bx = hp.nbBinsX(), by = hp.nbBinsY();
+  std::vector<std::vector<std::vector<int>>> cellsOf(bx, std::vector<std::vector<int>>(by));
+  if (bx * by == 1 || family == "drift" || family == "witness") {
+    int bi = family == "witness" ? 0 : (int)g.range(0, bx - 1), bj = family == "witness" ? 0 : (int)g.range(0, by - 1);
+    for (int c = 0; c < n; ++c) if (demand[c] > 0) cellsOf[bi][bj].push_back(c);
+  } else {
+    int clusters = g.range(1, 3);
+    std::vector<std::pair<int, int>> cl;
+    for (int i = 0; i < clusters; ++i) cl.push_back({(int)g.range(0, bx - 1), (int)g.range(0, by - 1)});
+    std::vector<int> perm(n);
+    for (int i = 0; i < n; ++i) perm[i] = i;
+    for (int i = n; i > 1; --i) std::swap(perm[i - 1], perm[g.range(0, i - 1)]);
+    for (int c : perm) {
+      if (demand[c] == 0 && g.chance(1, 2)) continue;
+      auto b = g.chance(3, 4) ? g.pick(cl) : std::make_pair((int)g.range(0, bx - 1), (int)g.range(0, by - 1));
+      cellsOf[b.first][b.second].push_back(c);
+    }
+  }
+  for (int i = 0; i < bx; ++i)
+    for (int j = 0; j < by; ++j) hp.setBinCells(i, j, cellsOf[i][j]);
+  Rectangle pa = hp.placementArea();
+  for (int axis = 0; axis < 2; ++axis) {
+    std::vector<float> res = axis == 0 ? hp.spreadCoordX(target) : hp.spreadCoordY(target);
+    std::ostringstream op;
+    op << "spreadf " << axis << " " << n << " " << bx << " " << by;
+    for (int i = 0; i < n; ++i) op << " " << demand[i] << " " << dyadic(target[i]);
+    for (int i = 0; i <= bx; ++i) op << " " << hp.binLimitX(i);
+    for (int j = 0; j <= by; ++j) op << " " << hp.binLimitY(j);
+    for (int i = 0; i < bx; ++i)
+      for (int j = 0; j < by; ++j) {
+        op << " " << cellsOf[i][j].size();
+        for (int c : cellsOf[i][j]) op << " " << c;
+      }
+    out.ops << op.str() << "\n";
+    std::ostringstream im;
+    im << "coordsf";
+    for (int i = 0; i < n; ++i) im << " " << (std::isfinite(res[i]) ? dyadic(res[i]) : std::string("nan"));
+    out.impl << im.str() << "\n";
+    double amin = axis == 0 ? pa.minX : pa.minY, amax = axis == 0 ? pa.maxX : pa.maxY;
+    bool nt = false;
+    for (int i = 0; i < bx; ++i)
+      for (int j = 0; j < by; ++j) {
+        double lo = axis == 0 ? hp.binLimitX(i) : hp.binLimitY(j);
+        double hi = axis == 0 ? hp.binLimitX(i + 1) : hp.binLimitY(j + 1);
+        int pos = 0;
+        for (int c : cellsOf[i][j]) {
+          if (demand[c] <= 0) continue;
+          ++pos;
+          double v = res[c];
+          if (v > lo && v < hi) out.count("spreadf_coord_strictly_inside_bin");
+          else if (v >= lo && v <= hi) out.count("spreadf_coord_on_edge_of_bin");
+          else out.count("spreadf_coord_outside_bin");
+          double r = std::round(v);
+          if (!(r >= lo - 0.5 && r <= hi + 0.5)) out.count("spreadf_round_outside_bin_by_more_than_half");
+          if (!(r >= amin - 0.5 && r <= amax + 0.5)) {
+            out.count("spreadf_round_outside_area_by_more_than_half");
+            out.count("known_finding_candidate:KF-C06-3");
+            if (out.dist["known_finding_candidate:KF-C06-3"] <= 3) out.sample("KF-C06-3 candidate " + id + ": " + op.str().substr(0, 600));
+          }
+        }
+        if (pos >= 2) nt = true;
+      }
+    if (nt) out.nontrivial(vh::hashStr(op.str()));
+  }
+  out.count("spreadf_cases");
+}
+
 // ------------------------------------------------------------------ grid (bins from the clipped rows)
 
 // the margin fromIspdCircuit uses, recomputed from the input alone
@@ -1190,6 +1355,9 @@ int main(int argc, char **argv) {
   vh::Out out(a.out);
   out.rule = "(a) spreadCoordX/Y on generated grids/views/bin assignments (exact: power-of-two bin demand, rationals must be equal; "
              "approx: |float - rat| <= 2^-18(|lo|+|hi|+1)); non-trivial = a bin with >= 2 cells, distinct by op text. "
+             "(a'') spreadCoordX/Y against the binary32 model SpreadF, every float compared exactly (families small/mixed/drift/witness, "
+             "limits up to 2^22, demands up to INT_MAX, up to 301 cells per bin; non-trivial = a bin with >= 2 positive-demand cells; "
+             "measured: spreadf_family_*, spreadf_coord_*_bin, spreadf_round_outside_*_by_more_than_half). "
              "(b) Circuit::placeGlobal with callback on vc::genCircuit circuits whose rows are all >= 4 row heights wide (nets: generic / none / "
              "degree 1 / one cell per net / fixed cells only), parameters over all efforts/net models/cost models/window sizes/blendings, "
              "penalty.updateFactor over (1,2) with step limits up to the default 400, stop tolerances down to 0, distance update factors "
@@ -1227,6 +1395,19 @@ int main(int argc, char **argv) {
     out.evaluations++;
     out.beginCase();
     spreadCase(out, id, g, exact);
+    out.endCase();
+  }
+  // (a'') binary32-exact spreading
+  long long nf = a.thorough() ? 12000 : (a.search() ? 1500 : 1500);
+  for (long long i = 0; i < nf; ++i) {
+    if (only >= 0 && !(onlyKind == "f" && only == i)) continue;
+    vh::Rng g = vh::Rng::forCase(a.seed, 4000000 + i);
+    std::string id = "f" + std::to_string(i);
+    out.ops << "case " << id << "\n";
+    out.impl << "case " << id << "\n";
+    out.evaluations++;
+    out.beginCase();
+    spreadFCase(out, id, i, g);
     out.endCase();
   }
   // grid
